@@ -271,6 +271,13 @@ bool aiounicast_nonblock::Send
 	mpz_init_set(tmp, m);
 	if (aio_is_encrypted)
 		mpz_add(tmp, tmp, aio_hide_length); // add $2^c$ to hide length
+	if (aio_is_encrypted && (mpz_cmp(tmp, aio_hide_length) < 0))
+	{
+		// the receiver refuses values below $2^c$, i.e., negative messages
+		std::cerr << "aiounicast_nonblock: input m is negative" << std::endl;
+		mpz_clear(tmp);
+		return false;
+	}
 	size_t size = mpz_sizeinbase(tmp, TMCG_MPZ_IO_BASE);
 	if ((size * 2) >= buf_in_size)
 	{
